@@ -208,7 +208,7 @@ def check_case(case_lines, impl_outputs):
             # every live set (and the dimension set of every array) must be what the ordered-list
             # model says: receivers of out-of-place operations and arrays are never changed
             seen = {}
-            for part in got[3:].split("; "):
+            for part in got[3:].split(" ; "):
                 if "=" not in part:
                     continue
                 h, v = part.split("=", 1)
